@@ -34,7 +34,7 @@ def has(t, kind, marker):
 # C01
 
 
-def gen_c01(t, seed, n_pairs, path):
+def gen_c01(t, seed, n_pairs, path, roots=None):
     rng = random.Random(seed)
     qs = t['quantities']
     cl = classes(t)
@@ -73,9 +73,10 @@ def gen_c01(t, seed, n_pairs, path):
              'w(out, "kdiv", d(&a), d(&a), 0, d(&(2.0 / a)));']
         for e, ty in ((2, 'P2'), (3, 'P3'), (-1, 'N1'), (-3, 'N3'), (0, 'Z0'), (1, 'P1')):
             s.append('w(out, "powi", d(&a), d(&a), %d, d(&a.powi(%s::new())));' % (e, ty))
-        if all(x % 2 == 0 for x in a['dim']):
+        # roots: every quantity for which rustc accepts the call (not only those the model expects)
+        if (roots is None and all(x % 2 == 0 for x in a['dim'])) or (roots is not None and (a['module'], 'sqrt') in roots):
             s.append('w(out, "sqrt", d(&a), d(&a), 0, d(&a.sqrt()));')
-        if all(x % 3 == 0 for x in a['dim']):
+        if (roots is None and all(x % 3 == 0 for x in a['dim'])) or (roots is not None and (a['module'], 'cbrt') in roots):
             s.append('w(out, "cbrt", d(&a), d(&a), 0, d(&a.cbrt()));')
         keep = ['a * 2.0', 'a / 2.0', 'a % a', 'a.abs()', 'a.signum()', 'a.max(a)', 'a.min(a)',
                 'a.floor::<%s>()' % u0, 'a.ceil::<%s>()' % u0, 'a.round::<%s>()' % u0, 'a.trunc::<%s>()' % u0, 'a.fract::<%s>()' % u0,
@@ -126,6 +127,21 @@ def gen_c01(t, seed, n_pairs, path):
     with open(path, 'w', encoding='utf-8') as f:
         f.write(content)
     return len(pairs), n_inter
+
+
+def accepted_roots(t, rlib, deps, workdir):
+    """{(module, 'sqrt'|'cbrt')} for which the call type-checks"""
+    os.makedirs(workdir, exist_ok=True)
+    path = os.path.join(workdir, 'roots.rs')
+    rows = []
+    with open(path, 'w', encoding='utf-8') as f:
+        f.write('#![allow(unused)]\n')
+        for q in t['quantities']:
+            for r in ('sqrt', 'cbrt'):
+                f.write('pub fn r_%s_%s(a: %s) { let _ = a.%s(); }\n' % (q['module'], r, alias(q), r))
+                rows.append((q['module'], r))
+    bad, other = rustc_rejects(path, rlib, deps)
+    return {row for i, row in enumerate(rows) if (i + 2) not in bad}
 
 
 # ------------------------------------------------------------------------------------------------
